@@ -2,8 +2,9 @@
 # tools/confirm_seed.sh <Cxx> <A|B>   confirm a seeded change in its scratch worktree /tmp/seed-<Cxx>:
 #  (1) applies, (2) workspace builds and the existing suite passes, (3) demo fails with it, (4) demo passes without it.
 id="$1"; v="$2"
-wt=/tmp/seed-$id; src=/tmp/seedout-$id/$v
-out=/tmp/confirm-$id-$v.log
+r="${SEED_ROUND:-}"   # "" for the first round, 2 for the second (worktrees /tmp/seed2-Cxx, output /tmp/seedout2-Cxx)
+wt=/tmp/seed$r-$id; src=/tmp/seedout$r-$id/$v
+out=/tmp/confirm$r-$id-$v.log
 : > $out
 cd $wt || exit 2
 git checkout -q -- . ; rm -rf palette/tests/demo.rs
